@@ -4,6 +4,7 @@ from typing import cast
 from ...pack_version import PackVersionFeature
 from ...tokenizer import Token, Tokenizer, TokenType
 from ...exception import JMCSyntaxException, JMCValueError
+from ...utils import substitute_params
 from ..jmc_function import JMCFunction, FuncType, func_property
 from ..utils import (
     ArgType,
@@ -17,13 +18,7 @@ from .._flow_control import parse_switch
 def _hardcode_process(
     string: str, index_string: str, i: str, token: Token, tokenizer: Tokenizer
 ) -> str:
-    string = string.replace(index_string, i)
-    while True:
-        calc_pos = string.find("Hardcode.calc")
-        if calc_pos == -1:
-            break
-        string = hardcode_parse_calc(calc_pos, string, token, tokenizer)
-    return string
+    return _hardcode_processes(string, [index_string], [i], token, tokenizer)
 
 
 def _hardcode_processes(
@@ -33,10 +28,14 @@ def _hardcode_processes(
     token: Token,
     tokenizer: Tokenizer,
 ) -> str:
+    replacements: dict[str, str] = {}
     for i, index_string in zip(i_s, index_strings):
-        string = string.replace(index_string, i)
-    calc_pos = string.find("Hardcode.calc")
-    if calc_pos != -1:
+        replacements.setdefault(index_string, i)
+    string = substitute_params(string, replacements)
+    while True:
+        calc_pos = string.find("Hardcode.calc")
+        if calc_pos == -1:
+            break
         string = hardcode_parse_calc(calc_pos, string, token, tokenizer)
     return string
 
@@ -130,16 +129,13 @@ class HardcodeRepeatList(JMCFunction):
                             TokenType.FUNC,
                             self.raw_args["function"].token.line,
                             self.raw_args["function"].token.col,
-                            _hardcode_process(
-                                _hardcode_process(
-                                    self.raw_args["function"].token.string,
-                                    "$" + self.arrow_func_args_params["function"][0],
-                                    str(i),
-                                    self.token,
-                                    self.tokenizer,
-                                ),
-                                "$" + self.arrow_func_args_params["function"][1],
-                                index,
+                            _hardcode_processes(
+                                self.raw_args["function"].token.string,
+                                [
+                                    "$" + param
+                                    for param in self.arrow_func_args_params["function"]
+                                ],
+                                [str(i), index],
                                 self.token,
                                 self.tokenizer,
                             ),
@@ -150,16 +146,13 @@ class HardcodeRepeatList(JMCFunction):
                 )
             except JMCSyntaxException as error:
                 error.reinit(
-                    lambda string: _hardcode_process(
-                        _hardcode_process(
-                            string,
-                            "$" + self.arrow_func_args_params["function"][0],
-                            str(i),
-                            self.token,
-                            self.tokenizer,
-                        ),
-                        "$" + self.arrow_func_args_params["function"][1],
-                        index,
+                    lambda string: _hardcode_processes(
+                        string,
+                        [
+                            "$" + param
+                            for param in self.arrow_func_args_params["function"]
+                        ],
+                        [str(i), index],
                         self.token,
                         self.tokenizer,
                     ),
